@@ -441,7 +441,10 @@ func ruleRequestMapping(p *Prog, r *Out) {
 	r.fn("(*serverConn).handleHeaderFrame", "(*serverConn).handleFrame", "(*serverConn).dispatchHandler", "(*serverConn).finishRequest", "(*serverConn).refillPending")
 	pos := p.pos(hd.Pos())
 	// pseudo clauses
-	type pc struct{ name, flag string; setters []string }
+	type pc struct {
+		name, flag string
+		setters    []string
+	}
 	for _, c := range []pc{
 		{"StringMethod", "pseudoMethod", []string{"SetMethodBytes"}},
 		{"StringPath", "pseudoPath", []string{"SetRequestURIBytes"}},
